@@ -40,7 +40,54 @@ func Add(A, B tensor.Tensor) (tensor.Tensor, error) {
 
 // Div divides 1 tensor by the other.
 func Div(A, B tensor.Tensor) (tensor.Tensor, error) {
-	return tensor.Div(A, B)
+	out, err := tensor.Div(A, B)
+	if err != nil {
+		return nil, err
+	}
+
+	// The division kernels of the tensor package return +Inf for every division of a float by
+	// zero. According to IEEE-754 the result depends on the dividend and the sign of the zero:
+	// 0/0 is NaN and -1/0 is -Inf.
+	switch out.Dtype() {
+	case tensor.Float32:
+		return divisionByZero[float32](out, A, B), nil
+	case tensor.Float64:
+		return divisionByZero[float64](out, A, B), nil
+	}
+
+	return out, nil
+}
+
+// divisionByZero recomputes the elements of out = A / B for which the divisor is zero. It
+// is assumed that A, B and out have the same shape.
+func divisionByZero[T FloatType](out, A, B tensor.Tensor) tensor.Tensor {
+	if A.RequiresIterator() || B.RequiresIterator() || out.RequiresIterator() {
+		return out
+	}
+
+	if a, ok := A.Data().(T); ok {
+		if b, ok := B.Data().(T); ok && b == 0 {
+			return tensor.New(tensor.FromScalar(a / b))
+		}
+
+		return out
+	}
+
+	dividends, okA := A.Data().([]T)
+	divisors, okB := B.Data().([]T)
+	quotients, okOut := out.Data().([]T)
+
+	if !okA || !okB || !okOut || len(dividends) != len(quotients) || len(divisors) != len(quotients) {
+		return out
+	}
+
+	for i, divisor := range divisors {
+		if divisor == 0 {
+			quotients[i] = dividends[i] / divisor
+		}
+	}
+
+	return out
 }
 
 // Mul multiplies 2 tensors with each other.
